@@ -24,10 +24,14 @@ def _case(draw):
     framing = draw(st.sampled_from(FRAMINGS))
     direction = draw(st.sampled_from(['req', 'rsp']))
     uid = draw(st.one_of(st.integers(1, 247), st.sampled_from([0, 1, 0x3A, 0x7B, 255])))
-    n = draw(st.integers(1, 5))
+    n = draw(st.one_of(st.integers(1, 5), st.integers(1, 5), st.integers(1, 5), st.integers(17, 45)))     # now and then a long pipeline
     frames = []
     for i in range(n):
-        kind, f = draw(gens.message(direction, spec_mode=False))
+        if n > 5:
+            kind, f = draw(st.sampled_from([('req:3', {'address': 1, 'quantity': 2}), ('req:7', {}), ('req:6', {'address': 2, 'value': 5})] if direction == 'req' else
+                                           [('rsp:3', {'registers': [1, 2]}), ('rsp:7', {'status': 3}), ('rsp:6', {'address': 2, 'value': 5})]))
+        else:
+            kind, f = draw(gens.message(direction, spec_mode=False))
         if framing == 'rtu' and kind.endswith(':8'):
             f = dict(f, data=(f['data'][:1] or [0]), sub=(10 if f['sub'] == 4 and direction == 'rsp' else f['sub']))
         if kind == 'rsp:8' and f['sub'] == 4:
@@ -89,6 +93,13 @@ def sweeps(tier):
                 cases.append({'framing': framing, 'dir': d, 'uid': 5, 'frames': [{'tid': 9, 'pdu': hx}, {'tid': 10, 'pdu': hx}],
                               'cut': ['at', [cutpos]], 'empties': [1]})
     out.append(('one-empty-read-at-every-position-of-a-frame', cases, True))
+    cases = []
+    for framing in FRAMINGS:
+        for d, hx in (('req', '0300010002'), ('rsp', '030400010002')):
+            for nfr in (16, 17, 33, 64, 100):
+                for cut in (['whole'], ['every', 1000], ['at', [3]]):
+                    cases.append({'framing': framing, 'dir': d, 'uid': 5, 'frames': [{'tid': i + 1, 'pdu': hx} for i in range(nfr)], 'cut': cut})
+    out.append(('long-pipelines-in-one-read', cases, False))
     return out
 
 
